@@ -110,6 +110,54 @@ func zzPow10i(n int) int64 {
 	return r
 }
 
+func zzFromStringFixed(b []byte) {
+	s := string(b)
+	var name string
+	var signed bool
+	scale := 8
+	switch zzChoice(4) {
+	case 0:
+		name, signed = "Fix64", true
+	case 1:
+		name, signed = "UFix64", false
+	case 2:
+		name, signed, scale = "Fix128", true, 24
+	default:
+		name, signed, scale = "UFix128", false, 24
+	}
+	out := zzCatch(func() any { return StringValueParsers[name].Parser(nil, s) })
+	zzAssert("no-crash", !out.Panicked)
+	if out.Panicked {
+		return
+	}
+	valid, neg, ip, fp, fd := zzFixedDecimal(b, signed)
+	some, accepted := out.Value.(*SomeValue)
+	zzKnownFinding("C17-unsigned-fixed-fromString-accepts-plus", !signed && len(b) > 0 && b[0] == '+')
+	zzAssert("accepted-iff-fixed-point-literal", accepted == valid)
+	if !accepted || !valid {
+		return
+	}
+	// exact raw value: +-(ip*10^scale + fp*10^(scale-fd)); strings of <= 4 bytes are always in range
+	mag := new(big.Int).Add(
+		new(big.Int).Mul(big.NewInt(ip), new(big.Int).Exp(big.NewInt(10), big.NewInt(int64(scale)), nil)),
+		new(big.Int).Mul(big.NewInt(fp), new(big.Int).Exp(big.NewInt(10), big.NewInt(int64(scale-fd)), nil)))
+	if neg {
+		mag = new(big.Int).Neg(mag)
+	}
+	var got *big.Int
+	switch v := some.value.(type) {
+	case Fix64Value:
+		got = big.NewInt(int64(v))
+	case UFix64Value:
+		got = new(big.Int).SetUint64(uint64(v.UFix64Value))
+	case Fix128Value:
+		got = v.ToBigInt()
+	case UFix128Value:
+		got = v.ToBigInt()
+	}
+	zzAssert("parsed-value", got != nil && got.Cmp(mag) == 0)
+}
+
 func zzFromStringCheck(typeName string, b []byte, signed bool, min, max int64) {
 	s := string(b)
 	out := zzCatch(func() any { return StringValueParsers[typeName].Parser(nil, s) })
@@ -182,52 +230,16 @@ func ZZ_C17_FromString_Unsigned_LLEN() {
 	}
 }
 
-//verif:harness property=C17 mode=bv bigw=320 unwind=60 lens=0..4 steps=30000000 stubs=metering
+//verif:harness property=C17 mode=bv bigw=320 unwind=60 lens=0..3 thorough_lens=0..4 steps=30000000 stubs=metering
 func ZZ_C17_FromString_Fixed_LLEN() {
-	b := zzNondetBytes(LEN)
-	s := string(b)
-	var name string
-	var signed bool
-	scale := 8
-	switch zzChoice(4) {
-	case 0:
-		name, signed = "Fix64", true
-	case 1:
-		name, signed = "UFix64", false
-	case 2:
-		name, signed, scale = "Fix128", true, 24
-	default:
-		name, signed, scale = "UFix128", false, 24
-	}
-	out := zzCatch(func() any { return StringValueParsers[name].Parser(nil, s) })
-	zzAssert("no-crash", !out.Panicked)
-	if out.Panicked {
-		return
-	}
-	valid, neg, ip, fp, fd := zzFixedDecimal(b, signed)
-	some, accepted := out.Value.(*SomeValue)
-	zzKnownFinding("C17-unsigned-fixed-fromString-accepts-plus", !signed && len(b) > 0 && b[0] == '+')
-	zzAssert("accepted-iff-fixed-point-literal", accepted == valid)
-	if !accepted || !valid {
-		return
-	}
-	// exact raw value: +-(ip*10^scale + fp*10^(scale-fd)); strings of <= 4 bytes are always in range
-	mag := new(big.Int).Add(
-		new(big.Int).Mul(big.NewInt(ip), new(big.Int).Exp(big.NewInt(10), big.NewInt(int64(scale)), nil)),
-		new(big.Int).Mul(big.NewInt(fp), new(big.Int).Exp(big.NewInt(10), big.NewInt(int64(scale-fd)), nil)))
-	if neg {
-		mag = new(big.Int).Neg(mag)
-	}
-	var got *big.Int
-	switch v := some.value.(type) {
-	case Fix64Value:
-		got = big.NewInt(int64(v))
-	case UFix64Value:
-		got = new(big.Int).SetUint64(uint64(v.UFix64Value))
-	case Fix128Value:
-		got = v.ToBigInt()
-	case UFix128Value:
-		got = v.ToBigInt()
-	}
-	zzAssert("parsed-value", got != nil && got.Cmp(mag) == 0)
+	zzFromStringFixed(zzNondetBytes(LEN))
 }
+
+// four bytes starting with a sign: the shortest strings with a sign prefix and both parts
+//verif:harness property=C17 mode=bv bigw=320 unwind=60 steps=30000000 stubs=metering
+func ZZ_C17_FromString_Fixed_Signed4() {
+	b := zzNondetBytes(4)
+	zzAssume(zzOr(b[0] == '+', b[0] == '-'))
+	zzFromStringFixed(b)
+}
+
